@@ -115,7 +115,7 @@ structure Phase (rq : Req K T R) (b : Sub K V R) : Prop where
   snd_off : b.snd = .off → b.pc.pre = true
   fin_snd : b.pc = .fin → b.snd = .stopped
   status_fin : b.status = none ↔ b.pc ≠ .fin
-  armed : b.armed = true ↔ ∃ r, b.snd = .sending r
+  armed : b.armed = true ↔ (b.snd = .sendSync ∨ ∃ r, b.snd = .sending r)
   pre_sent : b.pc.pre = true → b.sent = []
   pre_q : b.pc.preReg = true → syncOnly b.q
   reg_mode : b.pc = .reg → rq.mode = .stream
@@ -184,6 +184,7 @@ theorem phase_shared (l : ShLabel K V T R) (hi : Phase rq b) : Phase rq (b.onSha
   | tAdd t => exact ⟨h1, h2, h3, h4, h5, h6, h7, h8, h9, h10, h11, h12, h13, h14⟩
   | w1Upd k v => exact ⟨h1, h2, h3, h4, h5, h6, h7, h8, h9, h10, h11, h12, h13, h14⟩
   | w1Add k v => exact ⟨h1, h2, h3, h4, h5, h6, h7, h8, h9, h10, h11, h12, h13, h14⟩
+  | w1Quiet k v => exact ⟨h1, h2, h3, h4, h5, h6, h7, h8, h9, h10, h11, h12, h13, h14⟩
   | w1Del ks =>
     refine ⟨h1, ?_, h3, h4, h5, h6, h7, h8, h9, h10, h11, h12, ?_, ?_⟩ <;>
       simp_all [Sub.onShared]
@@ -238,6 +239,10 @@ theorem shInv_step {sys : Sys K T R} {sh sh' : Shared K V T R} {l : ShLabel K V 
       exact h2 k' (by simpa using hm)
     · intro r k' hm hc
       exact h3 r k' (by simpa using hm) hc
+  | w1Quiet k v =>
+    simp only [shFire, Option.ite_none_right_eq_some, Option.some.injEq] at h
+    obtain ⟨_, rfl⟩ := h
+    exact ⟨h1, h2, h3, h4⟩
   | w1Add k v =>
     simp only [shFire, Option.ite_none_right_eq_some, Option.some.injEq] at h
     obtain ⟨⟨hp, hf, _⟩, rfl⟩ := h
@@ -366,6 +371,21 @@ theorem shInv2_step {sys : Sys K T R} {sh sh' : Shared K V T R} {l : ShLabel K V
   cases l with
   | tAdd t => simp only [shFire, Option.some.injEq] at h; subst h; exact ⟨h1, h2⟩
   | w1Upd k0 v =>
+    simp only [shFire, Option.ite_none_right_eq_some, Option.some.injEq] at h
+    obtain ⟨_, rfl⟩ := h
+    refine ⟨h1, ?_⟩
+    intro k g hg1 hg2
+    show lastW k g (sh.wlog ++ [(k0, sh.gen k0, v)]) = some (setFn sh.val k0 (setFn (sh.val k0) (sh.gen k0) v) k g)
+    rw [lastW_snoc]
+    by_cases e : k0 = k
+    · subst e
+      by_cases e' : sh.gen k0 = g
+      · subst e'; simp [setFn]
+      · have : g ≠ sh.gen k0 := fun x => e' x.symm
+        simp [setFn, e', this]; exact h2 k0 g hg1 hg2
+    · have : k ≠ k0 := fun x => e x.symm
+      simp [setFn, e, this]; exact h2 k g hg1 hg2
+  | w1Quiet k0 v =>
     simp only [shFire, Option.ite_none_right_eq_some, Option.some.injEq] at h
     obtain ⟨_, rfl⟩ := h
     refine ⟨h1, ?_⟩
